@@ -111,7 +111,7 @@ def checkRest (cfg : Cfg) (env : Env) (st : St) (a : Assertion) : Except Err St 
       | .ok st3 =>
         if env.asynchop && !cfg.allowUnsolicited && st3.cameFrom.isNone then .error .cameFrom else .ok st3
 
-theorem checkAssertion_eq (cfg : Cfg) (env : Env) (rs v : Bool) (st : St) (a : Assertion) :
+theorem checkAssertion_eq16 (cfg : Cfg) (env : Env) (rs v : Bool) (st : St) (a : Assertion) :
     checkAssertion cfg env rs v st a =
       if !a.sig.present && rs then .error .sigMissingAssertion
       else if a.sig.present && !v && a.sig != .valid then .error .sigBadAssertion
@@ -120,7 +120,7 @@ theorem checkAssertion_eq (cfg : Cfg) (env : Env) (rs v : Bool) (st : St) (a : A
 theorem checkAssertion_verified {cfg : Cfg} {env : Env} {rs : Bool} {st st' : St} {a : Assertion}
     (h : checkAssertion cfg env rs false st a = .ok st') :
     checkAssertion cfg env rs true st a = .ok st' ∧ (a.sig.present && a.sig != .valid) = false := by
-  rw [checkAssertion_eq] at h ⊢
+  rw [checkAssertion_eq16] at h ⊢
   generalize checkRest cfg env st a = t at h ⊢
   cases hp : a.sig.present <;> cases rs <;> simp_all <;> (split at h <;> simp_all)
 
@@ -128,7 +128,7 @@ theorem checkAssertion_missing {cfg : Cfg} {env : Env} {st st' : St} {a : Assert
     (h1 : checkAssertion cfg env true false st a = .error e)
     (h2 : checkAssertion cfg env false false st a = .ok st') :
     checkAssertion cfg env true true st a = .error .sigMissingAssertion := by
-  rw [checkAssertion_eq] at h1 h2 ⊢
+  rw [checkAssertion_eq16] at h1 h2 ⊢
   generalize checkRest cfg env st a = t at h1 h2 ⊢
   cases hp : a.sig.present <;> simp_all
 
